@@ -65,6 +65,55 @@ def direct_tests(ctx):
         shutil.rmtree(d, ignore_errors=True)
 
 
+def late_subscription(ctx):
+    """the public API allows subscribing at any time: play the first part of a stream (entities get created), subscribe, play the rest;
+    also re-subscribe a key after the entity exists.  Each later event must reach the subscriber of that moment exactly once."""
+    from replay_unpack.core.entity import Entity
+    rng = ctx.rng
+    ds = synth.sweep_defset(elem=('u', 1))
+    ds['ents']['Thing']['client_methods'] = [('onHit', [(None, ('u', 2)), (None, ('string',))], None, False), ('ping', [], None, False)]
+    d = synth.write_defset(ds, rng)
+    try:
+        for dialect in ('wows', 'wows126', 'wot'):
+            pl = synth.make_player(dialect, d); view = synth.LibView(pl)
+            saved = [dict(t) for t in (Entity._methods_subscriptions, Entity._properties_subscriptions, Entity._nested_properties_subscription)]
+            for t in (Entity._methods_subscriptions, Entity._properties_subscriptions, Entity._nested_properties_subscription): t.clear()
+            calls = []
+            try:
+                h = synth.History(rng, dialect, view, fault_rate=0.0)
+                h.base_player(); eid = 600
+                props = view.exposed('Thing'); names = [n for n, _ in props]; pi = names.index('pad')
+                ms = view.methods('Thing')
+                head = struct.pack('<ihii', eid, view.type_index('Thing'), 3, 4) + bytes(24) + (bytes(4) if dialect == 'wot' else b'')
+                h.emit('EntityCreate', head + synth.binstream(b'\x00'), 'create')
+                part1 = h.stream(); n1 = len(h.packets)
+                h.emit('EntityProperty', struct.pack('<II', eid, pi) + synth.binstream(struct.pack('<I', 5)), 'update')
+                if ms:
+                    mname, margs, mhdr = ms[0]
+                    data = b''.join(gen_types.wire_of(t, gen_types.ValueGen(rng, allow_big=False).struct(t), max(mhdr, 0)) for a, t in margs)
+                    h.emit('EntityMethod', struct.pack('<II', eid, 0) + synth.binstream(data), 'call')
+                part2 = h.stream(h.packets[n1:]); n2 = len(h.packets)
+                h.emit('EntityProperty', struct.pack('<II', eid, pi) + synth.binstream(struct.pack('<I', 6)), 'update')
+                part3 = h.stream(h.packets[n2:])
+                pl.play(part1, True)
+                Entity.subscribe_property_change('Thing', 'pad', lambda e, v: calls.append(('p-late', v)))
+                if ms: Entity.subscribe_method_call('Thing', ms[0][0], lambda e, *a, **kw: calls.append(('m-late',)))
+                pl.play(part2, True)
+                Entity.subscribe_property_change('Thing', 'pad', lambda e, v: calls.append(('p-later', v)))
+                pl.play(part3, True)
+            finally:
+                for t, sv in zip((Entity._methods_subscriptions, Entity._properties_subscriptions, Entity._nested_properties_subscription), saved):
+                    t.clear(); t.update(sv)
+            ctx.case(('late-subscription', dialect), n=3)
+            want = [('p-late', 5)] + ([('m-late',)] if ms else []) + [('p-later', 6)]
+            got = [c for c in calls if c[0] != 'p-late' or c[1] != 6]       # (the first subscriber is REPLACED by the second: listed finding C07-a)
+            if got != want:
+                ctx.violation(dict(kind='late-subscription', dialect=dialect, expected=want, implementation=calls,
+                                   how='play(create packets); Entity.subscribe_*(...); play(update + call); re-subscribe; play(update): tools/c07.late_subscription'))
+    finally:
+        shutil.rmtree(d, ignore_errors=True)
+
+
 def run(ctx):
     ctx.rule = ('generated histories x generated registrations (all subsets of keys, 1..3 registrations per key, nested paths) through the '
                 'public subscribe API; callback traces (key, entity id, positional and keyword values) compared entry by entry with the '
@@ -79,6 +128,7 @@ def run(ctx):
     worldcheck.run_histories(ctx, 'C07', n_defsets=6 if q else 40, hist_per_set=3, sizes=[60, 150], dialects=('wows', 'wot', 'wows126'), regs_mode='single',
                              fault_rate=0.0, strict_too=True, garbage_w=12)
     direct_tests(ctx)
+    late_subscription(ctx)
     recordings.payload_check(ctx, 'C07', quick_n=3)
 
 
